@@ -138,6 +138,34 @@ theorem diagnostics_only_at_error_sites : ∀ f ∈ Gen.fns, ∀ x ∈ f.exts, x
     rw [this] at h2; cases h2
   · exact h2
 
+/-! ## hidden per-thread state a call might READ: errno -/
+
+/-- The extractor's pseudo-callee for "this function reads `errno` and lets the value take part in what it does, and the value
+may be one that an EARLIER call left behind" (tools/footprint.py, `errno reads`: not the argument of `strerror`, not a
+save/restore pair, not preceded on every path by an `errno = …` statement of the same function).  `__errno_location` itself stays
+in `diagFns`: libc WRITES errno on failure, and `strerror(errno)` after a failed `malloc`/`fopen` reports it. -/
+def ERRNO_READ : Nat := nm! "errno@read"
+
+theorem errno_never_read_decided : Gen.fns.all (fun f => !f.exts.contains ERRNO_READ) = true := by decide +kernel
+
+/-- NO FUNCTION OF LIBXRL DEPENDS ON A STALE errno.  Over the WHOLE table (mutators and internal functions included): no function
+reads `errno` in a way in which the value left by an earlier call — of the library, of libc, of the application — can influence
+what it does.  (A `strtod` whose range check is `errno == ERANGE` without `errno = 0` in front breaks this theorem, and — the name not
+being in any allow-list — `readonly_footprint_decided` as well.) -/
+theorem errno_never_read : ∀ f ∈ Gen.fns, ERRNO_READ ∉ f.exts := by
+  intro f hf hm
+  have h1 := (List.all_eq_true.mp errno_never_read_decided) f hf
+  simp only [Bool.not_eq_true', ← Bool.not_eq_true, List.contains_iff_mem] at h1
+  exact h1 hm
+
+/-- the same, as a consequence of the allow-lists, for everything reachable from a safe entry point: `errno@read` is in none of them -/
+theorem safe_entries_do_not_read_errno : ∀ e ∈ safeEntries, ∀ i, Reach Gen.fns e i →
+    ∃ f, Gen.fns[i]? = some f ∧ ERRNO_READ ∉ f.exts := by
+  intro e he i hr
+  obtain ⟨f, hf, _, hx⟩ := readonly_footprint e he i hr
+  refine ⟨f, hf, fun hm => ?_⟩
+  rcases hx _ hm with h | h <;> revert h <;> decide
+
 /-! ## the exemption, per ARGUMENT: mutators applied to a user array -/
 
 /-- file input (reached from `Crystal_ReadFile` only): functions of the stream they are handed -/
